@@ -197,7 +197,7 @@ func c19Real(ps []c19Param) []*v2.Param {
 		switch p.Kind {
 		case pkOptional:
 			d := fmt.Sprintf("d%d", i)
-			rp.Val = func() any { return d }
+			rp.Val = func() any { return []any{d} } // a fresh mutable value per call (Val is a factory)
 		case pkVariadic:
 			rp.Variable = true
 		}
@@ -278,6 +278,12 @@ func c19Exec(ps []c19Param, src string) (accepted bool, loadErr string, obs []st
 					}
 				}
 				got = append(got, s)
+				// the callee may change a default it received in place; the next call gets a new one
+				if l, ok := v.([]any); ok && len(l) == 1 {
+					if d, isDefault := l[0].(string); isDefault && strings.HasPrefix(d, "d") {
+						l[0] = "changed-in-place-by-an-earlier-call"
+					}
+				}
 			}
 			return nil
 		},
@@ -289,7 +295,16 @@ func c19Exec(ps []c19Param, src string) (accepted bool, loadErr string, obs []st
 	if e := sc.Run(nil); e != nil {
 		return true, "", got, e.Error()
 	}
-	return true, "", got, ""
+	// a second run of the same loaded script observes the same bindings
+	first := append([]string(nil), got...)
+	got = nil
+	if e := sc.Run(nil); e != nil {
+		return true, "", first, "second run: " + e.Error()
+	}
+	if strings.Join(got, ";") != strings.Join(first, ";") {
+		return true, "", first, fmt.Sprintf("second run of the loaded script binds %v, the first run bound %v", got, first)
+	}
+	return true, "", first, ""
 }
 
 func c19Expect(ps []c19Param, bound []c19Binding) []string {
@@ -299,7 +314,7 @@ func c19Expect(ps []c19Param, bound []c19Binding) []string {
 		case "arg":
 			exp = append(exp, drv.Canon(c19ArgVals[b.Arg]))
 		case "default":
-			exp = append(exp, drv.Canon(fmt.Sprintf("d%d", i)))
+			exp = append(exp, drv.Canon([]any{fmt.Sprintf("d%d", i)}))
 		case "tail":
 			if len(b.Tail) == 0 {
 				exp = append(exp, "[]")
